@@ -20,14 +20,20 @@ RULE = ("same grammar/weight/enumerator generator as C02 (independent random str
         "lexicographically non-decreasing.  Non-trivial: >= 5 programs in the output and non-uniform weights.")
 ASSUMPTIONS = ["floating-point: probabilities are compared as exact rationals of the floats the grammar holds, with a relative tolerance 2^-40 for the enumerators' own float products / sums of logarithms",
                "a run cut by the time limit (bee search blow-up, see C02) is still checked on the prefix it produced",
-               "recursive (infinite) grammars and the prefix-completeness clause on them are covered by theorem C03_prefix_complete only (finite grammars: sorted + complete); no correspondence leg drives CFG.infinite here",
+               "recursive grammars (CFG.depth_constraint with a negative bound): the first 60-300 outputs of heap, bucket, beap and constant-delay search are checked for order; for heap and beap search a threshold search over the implementation's own rule table (a TEST in the harness, exact rationals, budget 60000 expansions, inconclusive when exhausted) additionally checks that every program clearly more probable than the least probable output has been produced; the theorem C03_prefix_complete covers the clause for complete sorted enumerations",
                "u-heap-search is checked against the exact probability including the start-symbol weight; the bucket order of u-bucket-search is not checked"]
 
 
 
 def gen(rng, tier):
     rng.seed(rng.getrandbits(64) ^ 0xC03)      # a stream of its own
-    return C02.gen(rng, tier)
+    cases = C02.gen(rng, tier)
+    # recursive grammars: the first 60-300 outputs of heap, beap and constant-delay search
+    for i in range(40 if tier == "quick" else 300):
+        cases.append(EG.gen_inf_case(rng, ["hs", "bps", "cd", "bps", "hs_bucket", "bps"][i % 6]))
+    for i in range(12 if tier == "quick" else 120):
+        cases.append(EG.gen_inf_cycle_case(rng, ["bps", "cd", "bps", "hs"][i % 4]))
+    return cases
 
 
 usable = C02.usable
@@ -44,6 +50,18 @@ def bucket_index(p_float, size):
 def to_model(case, io):
     if not usable(io) or io.get("skip") or not io["out"]:
         return []
+    if case["grammar"]["kind"] == "inf":
+        # exact rational products of very long derivations are slow in the extracted model:
+        # keep the longest prefix with at most 2500 nodes in total (still a prefix of the output)
+        def nodes(w):
+            return 1 if w[0] == 0 else 1 + sum(nodes(a) for a in w[2:])
+        total, keep = 0, 0
+        for p in io["out"]:
+            total += nodes(p)
+            if total > 2500:
+                break
+            keep += 1
+        io["out"] = io["out"][:max(keep, 1)]
     en = case["enum"]
     if en == "hs_u":
         return [(12, [io["utable"], io["starts"], io["uweights"], io["sweights"], [1, 2 ** 40], io["out"]])]
@@ -59,6 +77,53 @@ def to_model(case, io):
         tags = [[x, [[sy, [bucket_index(q[0] / q[1], size), 1]] for sy, q in ws]] for x, ws in io["weights"]]
         return [(2, [tb, st, 4, tags, size, out])]
     return []
+
+
+def prefix_complete_above(io, q_min, cap=60000):
+    import json
+    table = {json.dumps(x): rs for x, rs in io["table"]}
+    wts = {json.dumps(x): {json.dumps(sy): Fraction(q[0], q[1]) for sy, q in ws} for x, ws in io["weights"]}
+    budget = [cap]
+    bound = q_min * (1 + Fraction(1, 2 ** 30))
+
+    def gen(nt, b):
+        key = json.dumps(nt)
+        for sy, (args, T) in table.get(key, []):
+            w = wts.get(key, {}).get(json.dumps(sy))
+            if w is None or w <= b:
+                continue
+            budget[0] -= 1
+            if budget[0] < 0:
+                raise OverflowError
+            if not args:
+                yield [0, sy], w, T
+            else:
+                for ps, q, Tout in seqs(args, T, w, b):
+                    yield [1, sy] + ps, q, Tout
+
+    def seqs(args, T, acc, b):
+        if not args:
+            yield [], acc, T
+            return
+        (ty, S) = args[0]
+        # the remaining arguments contribute a factor <= 1: the whole program is above b only if
+        # this argument alone keeps acc * q above b
+        for p, q, T1 in gen([ty, S, T], b / acc):
+            for ps, q2, T2 in seqs(args[1:], T1, acc * q, b):
+                if q2 > b:
+                    yield [p] + ps, q2, T2
+
+    out = set(json.dumps(p) for p in io["out"])
+    missing = []
+    try:
+        for p, q, _ in gen(io["start"], bound):
+            if q > bound and json.dumps(p) not in out:
+                missing.append(p)
+                if len(missing) >= 3:
+                    break
+    except (OverflowError, RecursionError):
+        return None
+    return missing
 
 
 def costs_consistent(case, io):
@@ -84,6 +149,12 @@ def model_obs(case, raws, io):
     r = raws[0]
     mo = {"sorted": r[0], "detail": r[1] if isinstance(r[1], int) else None,
           "costs_ok": 1 if costs_consistent(case, io) else 0, "n_out": len(io["out"])}
+    if case["grammar"]["kind"] == "inf" and case["enum"] in ("hs", "bps") and r[0] == 1 and len(r) > 2:
+        q_min = Fraction(r[2][0], r[2][1])
+        miss = prefix_complete_above(io, q_min)
+        mo["prefix_complete"] = None if miss is None else (1 if not miss else 0)
+        if miss:
+            mo["prefix_missing"] = [P.show_prog(p) for p in miss]
     if isinstance(r[1], list):
         mo["keys_head"] = r[1][:12]
         worst, mx = 0, None
@@ -104,7 +175,7 @@ def agree(case, io, mo):
         return False
     if not io["out"]:
         return True
-    return mo is not None and mo["sorted"] == 1 and mo["costs_ok"] == 1
+    return mo is not None and mo["sorted"] == 1 and mo["costs_ok"] == 1 and mo.get("prefix_complete") != 0
 
 
 def nontrivial(case, mo):
@@ -123,6 +194,9 @@ def classify(case, io, mo):
         return "c03_cd_order_inversions"
     if C02.hs_ttcfg_crash(case, io):
         return "c03_heap_search_ttcfg_order"
+    if case["grammar"]["kind"] == "inf" and case["enum"] in ("hs", "hs_bucket") and mo is not None \
+            and (mo["sorted"] == 0 or mo.get("prefix_complete") == 0) and mo["costs_ok"] == 1:
+        return "c03_heap_search_recursive_order"
     if case["grammar"]["kind"] == "size" and case["enum"] in ("hs", "hs_bucket") and mo is not None \
             and mo["sorted"] == 0 and mo["costs_ok"] == 1:
         return "c03_heap_search_ttcfg_order"
